@@ -577,6 +577,40 @@ def check_c03_all(ctx, R):
                       "%s reads the scratch key `%s` of the element under construction without removing it" % (f.qualname, short(c.slice, 50)))
     R.count("scratch-key reads in the EDIF reader (B5)", k)
     R.floor("scratch-key reads in the EDIF reader (B5)", 6)
+    # B4b: a position found by searching (`for x in range(len(S)): if S[x] == target: break`, then x is written) is the position of
+    # the element itself — the test that stops the search compares the element, not something the element shares with others
+    nb = 0
+    for mname, f in sorted(ctx.P.cls(COMP, "ComposeEdif").methods.items()):
+        for lp in walk_local(f.node):
+            if not isinstance(lp, ast.For):
+                continue
+            if isinstance(lp.iter, ast.Call) and norm(lp.iter.func) == "range" and lp.iter.args and isinstance(lp.iter.args[-1], ast.Call) \
+                    and norm(lp.iter.args[-1].func) == "len" and isinstance(lp.target, ast.Name):
+                seq, idx = norm(lp.iter.args[-1].args[0]), lp.target.id
+                elem = "%s[%s]" % (seq, idx)
+            elif isinstance(lp.iter, ast.Call) and norm(lp.iter.func) == "enumerate" and isinstance(lp.target, ast.Tuple) and len(lp.target.elts) == 2 \
+                    and isinstance(lp.target.elts[0], ast.Name):
+                idx, elem = lp.target.elts[0].id, norm(lp.target.elts[1])
+            else:
+                continue
+            brk = [(i_, b) for i_ in ast.walk(lp) if isinstance(i_, ast.If) for b in i_.body if isinstance(b, ast.Break)]
+            par = getattr(lp, "_parent", None)
+            blk = next((getattr(par, fld) for fld in ("body", "orelse") if lp in getattr(par, fld, [])), None)
+            used_after = blk is not None and any(isinstance(x, ast.Name) and x.id == idx and isinstance(x.ctx, ast.Load)
+                                                  for st in blk[blk.index(lp) + 1:] for x in ast.walk(st))
+            if not brk or not used_after:
+                continue
+            nb += 1
+            i_ = brk[0][0]
+            t = i_.test
+            ok = isinstance(t, ast.Compare) and len(t.ops) == 1 and isinstance(t.ops[0], (ast.Eq, ast.Is)) and elem in (norm(t.left), norm(t.comparators[0]))
+            if ok:
+                R.ok("B4", "%s: the search for `%s` stops at the element itself" % (f.qualname, elem), f.loc(i_))
+            else:
+                R.bad("B4", "%s|search %s" % (f.key, elem), f.loc(i_),
+                      "%s searches the position of an element but stops on `%s`, which does not compare the element `%s` itself: several elements can "
+                      "satisfy it (bits sharing a net), so the index written is that of the first of them" % (f.qualname, short(t, 60), elem))
+    R.count("position searches whose index is written (B4)", nb)
     R.rule("B6", "dependency order: the depth-first sort emits a cell / library only after everything it depends on")
     n6, _T = check_dependency_order(ctx, R, "B6")
     R.count("dependency-sort obligations (B6)", n6)
